@@ -25,11 +25,11 @@ ASSUME KeyOf({}, cAB, tL) # KeyOf({}, cAB, tR)
 ASSUME KeyOf({"MutKeyOmitsCodec"}, cB, t1) = KeyOf({"MutKeyOmitsCodec"}, cU, t1)
 ASSUME KeyOf({"MutKeyFirstFileOnly"}, cAB, << <<1>>, <<3>> >>) = KeyOf({"MutKeyFirstFileOnly"}, cAB, << <<1>>, <<4>> >>)
 
-\* one call on an empty directory: 9 program steps, a committed entry, the fresh specification
+\* one call on an empty directory: 8 program steps (9 program counters), a committed entry, the fresh specification
 f11 == [a |-> 1, b |-> 1]
 s0 == [store |-> EmptyStore, db |-> FALSE, any |-> FALSE, w |-> Begin(cB)]
 R0 == Reach(CodeDevs, f11, s0)
-ASSUME Cardinality(R0) = 10
+ASSUME Cardinality(R0) = 9
 ASSUME \E t \in R0 : /\ t.w.pc = "done" /\ t.w.ret = SpecRet(Fresh(cB, t1))
                      /\ t.store[KeyOf(CodeDevs, cB, t1)] = Entry("complete", Fresh(cB, t1))
 ASSUME \E t \in R0 : t.w.pc = "storing" /\ t.w.i = 1 /\ t.store[KeyOf(CodeDevs, cB, t1)].st = "partial"
